@@ -142,3 +142,82 @@ def wcs_lockstep_fail(orig, sliced, item):
             return (f"world axis {w}: element {tuple(int(x) for x in bad)} reports {float(ws[j][tuple(bad)])!r}, "
                     f"the source element had {float(wo[w][tuple(bad)])!r}")
     return ""
+
+
+# ---------------------------------------------------------------------------------------------
+# ProbeWCS: exactly representable linear low-level WCS, world = A @ pixel + b
+# ---------------------------------------------------------------------------------------------
+def make_probe(A, b, shape=None, bounds=None, tw=None, tp=None):
+    from astropy.wcs.wcsapi import BaseLowLevelWCS
+    import astropy.units as u
+    from fractions import Fraction
+
+    A = [[Fraction(x) for x in row] for row in A]
+    n = len(A)
+    # exact inverse by Gauss-Jordan over Fractions (A is square and invertible by construction)
+    M = [row[:] + [Fraction(int(i == j)) for j in range(n)] for i, row in enumerate(A)]
+    for c in range(n):
+        piv = next(r for r in range(c, n) if M[r][c] != 0)
+        M[c], M[piv] = M[piv], M[c]
+        pv = M[c][c]
+        M[c] = [x / pv for x in M[c]]
+        for r in range(n):
+            if r != c and M[r][c] != 0:
+                f = M[r][c]
+                M[r] = [x - f * y for x, y in zip(M[r], M[c])]
+    Ainv = [row[n:] for row in M]
+
+    class ProbeWCS(BaseLowLevelWCS):
+        def __init__(self):
+            self.A = np.array([[float(x) for x in r] for r in A])
+            self.Ainv = np.array([[float(x) for x in r] for r in Ainv])
+            self.b = np.array([float(x) for x in b])
+            self.A_exact, self.Ainv_exact, self.b_exact = A, Ainv, [Fraction(x) for x in b]
+            self._shape = None if shape is None else tuple(shape)      # pixel order
+            self._bounds = None if bounds is None else [tuple(x) for x in bounds]
+            self.tw = list(range(n)) if tw is None else list(tw)
+            self.tp = list(range(n)) if tp is None else list(tp)
+
+        pixel_n_dim = property(lambda self: n)
+        world_n_dim = property(lambda self: n)
+        world_axis_physical_types = property(lambda self: [f"custom:w{k}" for k in self.tw])
+        world_axis_units = property(lambda self: ["m"] * n)
+        world_axis_names = property(lambda self: [f"w{k}" for k in self.tw])
+        pixel_axis_names = property(lambda self: [f"p{k}" for k in self.tp])
+        pixel_shape = property(lambda self: self._shape)
+        array_shape = property(lambda self: None if self._shape is None else self._shape[::-1])
+        pixel_bounds = property(lambda self: self._bounds)
+        axis_correlation_matrix = property(lambda self: self.A != 0)
+        serialized_classes = False
+
+        def pixel_to_world_values(self, *p):
+            p = np.asarray(np.broadcast_arrays(*p), dtype=float)
+            w = np.tensordot(self.A, p, axes=(1, 0)) + self.b.reshape((n,) + (1,) * (p.ndim - 1))
+            return w[0] if n == 1 else tuple(w)
+
+        def world_to_pixel_values(self, *w):
+            w = np.asarray(np.broadcast_arrays(*w), dtype=float)
+            p = np.tensordot(self.Ainv, w - self.b.reshape((n,) + (1,) * (w.ndim - 1)), axes=(1, 0))
+            return p[0] if n == 1 else tuple(p)
+
+        @property
+        def world_axis_object_components(self):
+            return [(f"w{k}", 0, "value") for k in self.tw]
+
+        @property
+        def world_axis_object_classes(self):
+            return {f"w{k}": (u.Quantity, (), {"unit": u.m}) for k in self.tw}
+
+    return ProbeWCS()
+
+
+def rand_unimodular(rng, n, lower_only=False):
+    """integer matrix with integer inverse: product of a unit lower and a unit upper triangular matrix"""
+    L = np.eye(n, dtype=int)
+    U = np.eye(n, dtype=int)
+    for i in range(n):
+        for j in range(i):
+            L[i, j] = rng.choice([0, 0, 1, -1, 2])
+            if not lower_only:
+                U[j, i] = rng.choice([0, 0, 1, -1])
+    return (L @ U).tolist()
